@@ -37,6 +37,10 @@ def pool(r):
         ('aempty', p.arr([])), ('a12', p.arr([interp.vflt(1), interp.vflt(2)])), ('a13', p.arr([interp.vflt(1), interp.vflt(3)])),
         ('oempty', p.obj([])), ('oa', p.obj([['a', interp.vflt(1)]])), ('ob', p.obj([['a', interp.vflt(1)], ['b', ['null']]])),
         ('rx', ['regex']),
+        # non-finite operands (datetime + nan is a ValueError inside timedelta, not an ArithmeticError) and objects that share their
+        # first key with different values while the key SETS order the other way (value order: sorted items pairwise, then size)
+        ('nan', ['flt', 'nan']), ('inf', ['flt', 'inf']), ('ninf', ['flt', '-inf']),
+        ('oc', p.obj([['a', interp.vflt(2)]])), ('od', p.obj([['a', interp.vflt(1)], ['b', interp.vflt(0)]])),
     ]
     return vals
 
